@@ -62,6 +62,12 @@ def run():
         from checks import parcheck
         parcheck.build_harness(std=False)
         parcheck.build_harness(std=True)
+        for fn in ("build_cyc_harness", "build_cycle_driver", "build_cert_driver"):
+            if hasattr(parcheck, fn):
+                try:
+                    getattr(parcheck, fn)()
+                except TypeError:
+                    pass
     if os.path.exists(os.path.join(root, "harness-conc")):
         sys.path.insert(0, root)
         from checks import conc_diff
